@@ -150,31 +150,32 @@ JOBS = {
     "C10": [
         {"module": "MC_KeyDecode", "spec": "Spec", "invariants": MAP_INV + ["InvOpsOrder"],
          "quick": {"constants": {"MaxLen": 2, "MaxKeys": 3}, "timeout": 900},
-         "thorough": {"constants": {"MaxLen": 3, "MaxKeys": 4}, "timeout": 3000},
+         "thorough": {"constants": {"MaxLen": 3, "MaxKeys": 4}, "timeout": 1800, "time_bounded": True},
          "rule": "every COSE_Key map over the entry palette up to MaxLen entries and every key set up to MaxKeys elements "
                  "(each state = one item); non-trivial = non-empty container"},
     ],
     "C18": [
         {"module": "MC_Cwt", "spec": "Spec", "invariants": MAP_INV + ["InvRoundTrip"],
          "quick": {"constants": {"MaxLen": 2}, "timeout": 900},
-         "thorough": {"constants": {"MaxLen": 3}, "timeout": 3000},
+         "thorough": {"constants": {"MaxLen": 3}, "timeout": 1800, "time_bounded": True},
          "rule": "every claims map over the entry palette up to MaxLen entries; every KDF-context array up to arity MaxLen and "
                  "every PartyInfo / SuppPubInfo sub-array up to arity 4 over slot palettes; non-trivial = non-empty container"},
         {"module": "MC_Kdf", "spec": "Spec", "invariants": ["InvIff", "InvValue", "InvRoundTrip", "Emit"],
          "quick": {"constants": {"MaxLen": 5}, "timeout": 900},
-         "thorough": {"constants": {"MaxLen": 7}, "timeout": 3000}},
+         "thorough": {"constants": {"MaxLen": 7}, "timeout": 1800, "time_bounded": True}},
     ],
     "C09": [
         {"module": "MC_MsgDecode", "spec": "Spec", "invariants": MSG_INV,
          "quick": {"constants": {"MaxLen": 6, "Wide": "FALSE"}, "timeout": 900},
-         "thorough": {"constants": {"MaxLen": 7, "Wide": "TRUE"}, "timeout": 3000},
+         "thorough": {"constants": {"MaxLen": 7, "Wide": "TRUE"}, "timeout": 2400, "time_bounded": True},
          "rule": "every array of arity 0..MaxLen over per-position slot palettes (each state = one array), decoded as all "
                  "eight structure types by value API and two wire encodings; non-trivial = non-empty array"},
     ],
     "C08": [
         {"module": "MC_HeaderDecode", "spec": "Spec", "invariants": HDR_INV,
          "quick": {"constants": {"MaxLen": 2}, "timeout": 900},
-         "thorough": {"constants": {"MaxLen": 3}, "timeout": 3000},
+         # one level more than quick: > 3 000 000 maps; breadth-first for 40 minutes (all maps of 0..2 entries, then as many of 3 as fit)
+         "thorough": {"constants": {"MaxLen": 3}, "timeout": 2400, "time_bounded": True},
          "rule": "every header map over the entry palette up to MaxLen entries (each state = one map), decoded "
                  "standalone / as unprotected header / inside a protected bstr, by value API and two wire encodings; "
                  "non-trivial = a map or array with at least one entry"},
@@ -185,7 +186,8 @@ JOBS_BASE.update({k: v for k, v in JOBS.items()})
 # (C01 pushes every wire through all 36 entry points with follow-ups: the quick bounds of the decode instances in both tiers)
 JOBS["C01"] = JOBS["C01"] + [dict(j, thorough=j["quick"]) for j in derived(["MC_HeaderDecode", "MC_MsgDecode", "MC_KeyDecode", "MC_Cwt", "MC_Kdf"])]
 for _p in ("C07", "C13"):
-    JOBS[_p] = JOBS[_p] + derived(["MC_HeaderDecode", "MC_MsgDecode", "MC_KeyDecode", "MC_Cwt", "MC_Kdf"] + (["MC_Tag"] if _p == "C07" else []))
+    JOBS[_p] = JOBS[_p] + [dict(j, thorough=j["quick"]) for j in
+                           derived(["MC_HeaderDecode", "MC_MsgDecode", "MC_KeyDecode", "MC_Cwt", "MC_Kdf"] + (["MC_Tag"] if _p == "C07" else []))]
 
 
 def trace_job(fams):
